@@ -37,7 +37,7 @@ RULE = ("generated TsCore programs (every declaration reachable from an export) 
 def run(chk):
     chk.build_rust(); chk.build_js()
     quick = chk.tier == "quick"
-    passes = [_corpus] + ([_pass(chk.seed * 100 + 9, 1500, 6, "split(random)")] if quick else [_pass(chk.seed * 100 + k, 8000, 8, f"split(random#{k})") for k in range(6)])
+    passes = [_corpus] + ([_pass(chk.seed * 100 + 9, 3000, 6, "split(random)")] if quick else [_pass(chk.seed * 100 + k, 8000, 8, f"split(random#{k})") for k in range(6)])
     return vcheck.generic_run(chk, MODULES, AUDIT, passes,
         ["C09: Model/Modules.lean is a hand-written model of parse_and_bind, get_type_visiting and the Type/QualifiedType walkers for type aliases and interfaces; enums, values "
          "(`typeof`), `declare module`, `import x = require()` and string-named exports are outside the model",
